@@ -440,7 +440,7 @@ func cmdCheck(args []string) int {
 	known := loadKnown()
 	isKnown := func(key string) *knownFinding {
 		for i := range known {
-			if known[i].status == "known" && known[i].prop == id && known[i].key == key {
+			if known[i].status == "known" && known[i].prop == id && normKey(known[i].key) == normKey(key) {
 				return &known[i]
 			}
 		}
@@ -734,4 +734,35 @@ func cmdSelftest(args []string) int {
 		fmt.Println("engine smoke test ok")
 	}
 	return rc
+}
+
+
+// normKey makes a finding key insensitive to edits of trailing comments on the source line it quotes: every
+// '|'-separated component is cut at the first "//" that is outside a string / rune literal.
+func normKey(k string) string {
+	parts := strings.Split(k, "|")
+	for i, p := range parts {
+		parts[i] = strings.TrimSpace(stripLineComment(p))
+	}
+	return strings.Join(parts, "|")
+}
+
+func stripLineComment(l string) string {
+	var q byte
+	for i := 0; i < len(l); i++ {
+		c := l[i]
+		switch {
+		case q != 0:
+			if c == '\\' && q != '`' {
+				i++
+			} else if c == q {
+				q = 0
+			}
+		case c == '"' || c == '\'' || c == '`':
+			q = c
+		case c == '/' && i+1 < len(l) && l[i+1] == '/':
+			return l[:i]
+		}
+	}
+	return l
 }
